@@ -31,6 +31,10 @@ Fixpoint plan_ok_from (lo : Z) (plan : list Z) (nk : Z) : bool :=
   match plan with [] => true | k :: r => (lo <=? k) && (k <? nk) && plan_ok_from (k + 1) r nk end.
 Definition plan_ok (plan : list Z) (nk : Z) : bool := plan_ok_from 0 plan nk.
 
+(* SIGHASH_SINGLE (hashtype & 0x1f = 3) at a position without a matching output *)
+Definition must_refuse (t : tx) (idx : Z) (hts : list Z) : bool :=
+  existsb (fun ht => sh_single ht && (lenZ (tx_vout t) <=? idx)) hts.
+
 Definition run_C05 (op : Z) (args : list val) : val :=
   match op, args with
   | 1, [_; _; _; tv; VInt idx; VList hts; tv'; VInt idx'; VInt wrongkey; _;
@@ -41,6 +45,9 @@ Definition run_C05 (op : Z) (args : list val) : val :=
           let t2 := with_sig_script t' idx' ssig in
           let predicted := negb (wrongkey =? 1) && forallb (same_preimage sub t idx t' idx') (ints hts) in
           VList [VList [model_verify t1 idx ssig spk; model_verify t2 idx' ssig spk; VBytes ssig; VBytes spk; VBytes sub];
+                 (* the library must refuse to produce a digest to sign for SIGHASH_SINGLE without a matching
+                    output (C03): a run in which it signed nevertheless is a violation *)
+                 if must_refuse t idx (ints hts) then VInt 0 else
                  vbool (val_eqb r0 (if wrongkey =? 1 then r0 else VInt 0) &&
                         (if wrongkey =? 1 then is_validation_val r0 else true) &&
                         (if predicted then val_eqb r1 (VInt 0) else is_validation_val r1));
@@ -58,6 +65,7 @@ Definition run_C05 (op : Z) (args : list val) : val :=
           let accept := (m <=? lenZ plan) && plan_ok (used (ints plan)) nk in
           let predicted := accept && forallb (same_preimage sub t idx t' idx') (used (ints hts)) in
           VList [VList [model_verify t1 idx ssig spk; model_verify t2 idx' ssig spk; VBytes ssig; VBytes spk; VBytes sub];
+                 if must_refuse t idx (ints hts) then VInt 0 else
                  vbool ((if accept then val_eqb r0 (VInt 0) else is_validation_val r0) &&
                         (if predicted then val_eqb r1 (VInt 0) else is_validation_val r1));
                  vbool predicted]
